@@ -284,6 +284,14 @@ static void mode_full(Tape &t)
 	c.sni = t.u8() % 4 == 0 ? "" : "localhost";
 	cp.sni = c.sni;
 	if (cp.sni.empty()) cp.sni = "";    // (validation then has no name to check)
+	// the server keeps a session cache and the client asks for resumption, so that a second connection on the same contexts
+	// (below) negotiates over an abbreviated handshake
+	static std::vector<uint8_t> cache_store;
+	static br_ssl_session_cache_lru lru;
+	cache_store.assign(4096, 0);
+	br_ssl_session_cache_lru_init(&lru, cache_store.data(), cache_store.size());
+	sp.cache = &lru;
+	cp.resume = true;
 	BearClient cl(cp);
 	BearServer sv(sp);
 	// client hash set: subset, keeping MD5+SHA-1 whenever a version below 1.2 is admissible (documented requirement)
@@ -341,6 +349,45 @@ static void mode_full(Tape &t)
 		const char *sn = br_ssl_engine_get_server_name(sv.eng);
 		VF_CHECK(std::string(sn ? sn : "") == c.sni, "%s: server saw SNI '%s', client sent '%s'", desc.c_str(), sn ? sn : "", c.sni.c_str());
 		stats.cls("F:negotiated");
+		// second connection, same contexts, resumption offered, client ALPN list changed: the protocol name must be
+		// negotiated afresh (it is not part of the session), whatever kind of handshake takes place
+		if (t.u8() % 2 == 0) {
+			ClientView c2 = c;
+			c2.alpn.clear();
+			unsigned nb = t.u8() % 4;
+			for (unsigned i = 0; i < nb; i++) { std::string n = ALPN_NAMES[t.u8() % 7]; if (std::find(c2.alpn.begin(), c2.alpn.end(), n) == c2.alpn.end()) c2.alpn.push_back(n); }
+			std::vector<const char *> ptrs;
+			for (auto &n : c2.alpn) ptrs.push_back(n.c_str());
+			br_ssl_engine_set_protocol_names(cl.eng, ptrs.empty() ? nullptr : ptrs.data(), ptrs.size());
+			// orderly end of the first connection, then reset both
+			cl.close();
+			for (int i = 0; i < 2000; i++) if (!S.round()) break;
+			VF_CHECK(cl.reset() && sv.reset(), "%s: second reset failed", desc.c_str());
+			Session S2(&cl, &sv);
+			S2.script[0].push_back(Item{ IT_WRITE, 10, true });
+			S2.script[1].push_back(Item{ IT_WRITE, 10, true });
+			S2.run(400000);
+			Outcome r2 = reference(c2, s);
+			std::string d2 = desc + fmt(" | second connection (resumption offered) with client ALPN list of %zu name(s)", c2.alpn.size());
+			bool resumed = false;
+			{
+				br_ssl_session_parameters a2;
+				br_ssl_engine_get_session_parameters(cl.eng, &a2);
+				resumed = S2.established && a2.session_id_len == a.session_id_len && memcmp(a2.session_id, a.session_id, a.session_id_len) == 0;
+			}
+			if (r2.alert == 120) {
+				// documented: fatal alert no_application_protocol.  On a resumed session the flag is not applied (listed finding)
+				if (S2.established && resumed && known("alpn-mismatch-flag-ignored-on-resumption")) stats.known_finding("alpn-mismatch-flag-ignored-on-resumption", "BR_OPT_FAIL_ON_ALPN_MISMATCH is not applied when the session is resumed");
+				else VF_CHECK(!S2.established && sv.error() == 120 + BR_ERR_SEND_FATAL_ALERT, "%s: no common protocol name and BR_OPT_FAIL_ON_ALPN_MISMATCH set: server error %d, established %d (resumed %d)", d2.c_str(), sv.error(), (int)S2.established, (int)resumed);
+				stats.cls("F2:alpn-alert");
+			} else if (r2.alert < 0) {
+				VF_CHECK(S2.established && cl.error() == 0 && sv.error() == 0, "%s: failed (client %d, server %d)", d2.c_str(), cl.error(), sv.error());
+				const char *qa = br_ssl_engine_get_selected_protocol(cl.eng), *qb = br_ssl_engine_get_selected_protocol(sv.eng);
+				VF_CHECK(std::string(qa ? qa : "") == (r2.has_alpn ? r2.alpn : "") && std::string(qb ? qb : "") == (r2.has_alpn ? r2.alpn : ""), "%s: selected protocol '%s'/'%s', reference '%s' (resumed %d)", d2.c_str(),
+					qa ? qa : "(none)", qb ? qb : "(none)", r2.alpn.c_str(), (int)resumed);
+				stats.cls(resumed ? "F2:resumed" : "F2:full");
+			}
+		}
 	}
 	unsigned common = 0;
 	for (uint16_t x : s.suites) if (std::find(c.suites.begin(), c.suites.end(), x) != c.suites.end()) common++;
